@@ -576,6 +576,30 @@ pub fn c10_monitor(ctx: &mut Ctx, o: &Outcome, tx: &Tx, _ring: &KeyRing) {
         }
     };
     let reds = tx.redeemers();
+    if o.unit_redeemers {
+        // no markers: every Plutus use the ledger sees must find exactly one redeemer at its pointer, and no
+        // redeemer may sit at any other pointer
+        let plutus_hashes: BTreeSet<Vec<u8>> = _ring.plutus.iter().map(|p| p.hash().to_bytes()).collect();
+        let purpose = |t: u64| ["spend", "mint", "cert", "reward", "vote", "propose"].get(t as usize).copied().unwrap_or("unknown");
+        let mut wanted: BTreeSet<(u64, u64)> = BTreeSet::new();
+        for (t, i, h) in &need.scripts {
+            if plutus_hashes.contains(h) {
+                wanted.insert((*t, *i));
+                let n = reds.iter().filter(|(rt, ri, _, _)| rt == t && ri == i).count();
+                if n == 1 {
+                    ctx.bucket("c10.unit-redeemer-at-its-pointer");
+                } else {
+                    ctx.violation(&format!("redeemer/unit-redeemers/{}-at-the-pointer-of-a-plutus-item/{}", n, purpose(*t)), detail(o));
+                }
+            }
+        }
+        for (t, i, _, _) in &reds {
+            if !wanted.contains(&(*t, *i)) {
+                ctx.violation(&format!("redeemer/unit-redeemers/points-at-no-plutus-item/{}", purpose(*t)), detail(o));
+            }
+        }
+        return;
+    }
     if o.superseded {
         ctx.bucket("c10.history-with-superseded-plutus-registration");
         if std::env::var("CSLMON_DEBUG").is_ok() {
